@@ -82,7 +82,10 @@ type FactoryCall struct {
 }
 
 // Log collects factory invocations of the middlewares of one experiment.
-type Log struct{ Calls []FactoryCall }
+type Log struct {
+	Calls []FactoryCall
+	ByH   map[*H]FactoryCall // wrapper → the factory call that produced it
+}
 
 // MW is a harness middleware.
 type MW struct {
@@ -98,7 +101,11 @@ func (m MW) Middleware(next *H, method, pattern, router string) *H {
 	if m.Log != nil {
 		m.Log.Calls = append(m.Log.Calls, FactoryCall{m.Name, nid, method, pattern, router})
 	}
-	return &H{ID: m.Name + "(" + nid + ")", Inner: next, MW: m.Name}
+	w := &H{ID: m.Name + "(" + nid + ")", Inner: next, MW: m.Name}
+	if m.Log != nil && m.Log.ByH != nil {
+		m.Log.ByH[w] = FactoryCall{m.Name, nid, method, pattern, router}
+	}
+	return w
 }
 
 // Fault asks a site to panic during one request.
@@ -135,6 +142,7 @@ type Obs struct {
 	Live    http.Header // live header map after the handler returned
 	Panic   any         // value that escaped ServeHTTP
 	Paniced bool
+	Served  *H // the handler value the CallFunc received
 }
 
 type obsKey struct{}
@@ -221,6 +229,7 @@ func Call(w http.ResponseWriter, r *http.Request, route types.Route, h *H) {
 		panic("harness: nil handler invoked")
 	}
 	o.HID = h.ID
+	o.Served = h
 	o.Trail = h.Trail()
 	c := h.Core()
 	if c == nil {
@@ -348,6 +357,13 @@ func Serve(s http.Handler, q Req) *Obs {
 	o.Header = w.SentH
 	o.Body = w.Body
 	o.Live = w.H
+	return o
+}
+
+// ServeCapture is Serve that also hands out the handler value given to the CallFunc.
+func ServeCapture(s http.Handler, q Req, served **H) *Obs {
+	o := Serve(s, q)
+	*served = o.Served
 	return o
 }
 
